@@ -40,7 +40,7 @@ from pycdlib import utils
 
 # For mypy annotations
 if False:  # pylint: disable=using-constant-test
-    from typing import Any, BinaryIO, Callable, Deque, Dict, Generator, IO, List, Optional, Tuple, Union  # NOQA pylint: disable=unused-import
+    from typing import Any, BinaryIO, Callable, Deque, Dict, Generator, IO, List, Optional, Set, Tuple, Union  # NOQA pylint: disable=unused-import
 
 # There are a number of specific ways that numerical data is stored in the
 # ISO9660/Ecma-119 standard.  In the text these are reference by the section
@@ -1018,12 +1018,21 @@ class PyCdlib:
         parent_links = []
         child_links = []
         lastbyte = 0
+        seen_dir_extents = set()  # type: Set[int]
         dirs = collections.deque([root_dir_record])
         while dirs:
             dir_record = dirs.popleft()
 
+            # A directory whose extent has been walked already means that the
+            # directory tree has a loop in it.
+            if dir_record.extent_location() in seen_dir_extents:
+                raise pycdlibexception.PyCdlibInvalidISO('Directory records form a loop')
+            seen_dir_extents.add(dir_record.extent_location())
+
             self._seek_to_extent(dir_record.extent_location())
             length = dir_record.get_data_length()
+            if dir_record.extent_location() * self.logical_block_size + length > iso_file_length:
+                raise pycdlibexception.PyCdlibInvalidISO('Directory extends beyond the end of the ISO')
             offset = 0
             last_record = None  # type: Optional[dr.DirectoryRecord]
             data = cdfp.read(length)
